@@ -57,10 +57,13 @@ Theorem C13_exit_serves_head : forall st w ws, memN w (holders st) = true -> sem
   waiters (step st (Exit w)) = ws /\ value (step st (Exit w)) = value st.
 Proof. exact exit_serves_head. Qed.
 
-(* a limit of zero or less refuses entry *)
-Theorem C13_zero_refuses : forall st w, target st <= 0 -> known st w = false -> locked st = false ->
+(* a limit of zero or less refuses entry - at once, whether or not a permit is free, and without
+   touching the semaphore (on the original tree an entry made while no permit was free was queued, and
+   stayed queued while the limit stayed at zero: F18, repaired by a fix: commit) *)
+Theorem C13_zero_refuses : forall st w, target st <= 0 -> known st w = false ->
   refused (step st (Start w)) = w :: refused st /\ holders (step st (Start w)) = holders st /\
-  nhold (step st (Start w)) = nhold st.
+  nhold (step st (Start w)) = nhold st /\ waiters (step st (Start w)) = waiters st /\
+  value (step st (Start w)) = value st /\ semv (step st (Start w)) = semv st.
 Proof. exact zero_refuses. Qed.
 
 (* non-vacuity: two permits, three workers, a lowered limit *)
